@@ -23,7 +23,7 @@ REPLAY_DIR = os.path.join(ROOT, "replays")
 BASELINE = os.path.join(ROOT, "baseline", "obligations.json")
 KNOWN = os.path.join(ROOT, "known_findings.json")
 
-PREFIX_TAGS = {"P1": ["C05", "C08"], "P2": ["C05"], "P3": ["C06", "C01"], "P4": ["C07"], "P5": ["C14"], "status": ["C05"]}
+PREFIX_TAGS = {"P1": ["C05", "C08"], "P2": ["C05"], "P3": ["C06", "C01"], "P4": ["C07", "C01"], "P5": ["C14"], "status": ["C05"]}
 KIND_TAGS = {"bounds": ["C16"], "range": ["C19"], "term": ["C04"], "frame": ["C13"], "div": ["C16"]}
 
 
